@@ -100,6 +100,9 @@ func New(id, level, rule string) *Report {
 		r.Tier = "quick"
 	}
 	r.loadKnown()
+	if *FlagReplay == "" && *FlagShard == "" {
+		os.RemoveAll(filepath.Join(r.VerifDir, "replays", r.ID)) // artefacts of earlier runs are stale
+	}
 	return r
 }
 
